@@ -80,6 +80,15 @@ def full_lc_voice(rng, source_address, group=True, other=None):
     return FullLinkControl(flco=FLCOs.UnitToUnitVoiceChannelUser, target_address=other, **kw)
 
 
+class Octets(bytes):
+    """octets in a caller's own subclass of bytes (a payload wrapper): wherever bytes are accepted, these are bytes"""
+
+
+def as_caller_bytes(b, k):
+    """every fifth caller hands its octets over as an instance of a subclass of bytes"""
+    return Octets(b) if k % 5 == 4 else bytes(b)
+
+
 def full_lc_other(rng, sub):
     """the full link controls that are not voice channel users: sub = "gps" (GPS Info, coordinates on the 25 / 24 bit grid,
     both signs and the extremes) or "ta" (talker alias header / blocks 1..3)"""
